@@ -37,6 +37,9 @@ Model/Checkpoint.vos Model/Checkpoint.vok Model/Checkpoint.required_vos: Model/C
 Model/CmdFilter.vo Model/CmdFilter.glob Model/CmdFilter.v.beautified Model/CmdFilter.required_vo: Model/CmdFilter.v Base/Bytes.vo Model/Filter.vo Gen/CmdTable.vo
 Model/CmdFilter.vio: Model/CmdFilter.v Base/Bytes.vio Model/Filter.vio Gen/CmdTable.vio
 Model/CmdFilter.vos Model/CmdFilter.vok Model/CmdFilter.required_vos: Model/CmdFilter.v Base/Bytes.vos Model/Filter.vos Gen/CmdTable.vos
+Model/Cupcake.vo Model/Cupcake.glob Model/Cupcake.v.beautified Model/Cupcake.required_vo: Model/Cupcake.v Base/Bytes.vo Base/Endian.vo Base/Dec.vo Model/RespCodec.vo Model/Digest.vo Model/Lzf.vo Model/Rdb.vo Gen/Crc64.vo
+Model/Cupcake.vio: Model/Cupcake.v Base/Bytes.vio Base/Endian.vio Base/Dec.vio Model/RespCodec.vio Model/Digest.vio Model/Lzf.vio Model/Rdb.vio Gen/Crc64.vio
+Model/Cupcake.vos Model/Cupcake.vok Model/Cupcake.required_vos: Model/Cupcake.v Base/Bytes.vos Base/Endian.vos Base/Dec.vos Model/RespCodec.vos Model/Digest.vos Model/Lzf.vos Model/Rdb.vos Gen/Crc64.vos
 Model/Digest.vo Model/Digest.glob Model/Digest.v.beautified Model/Digest.required_vo: Model/Digest.v Base/Bytes.vo Base/Table.vo Base/Endian.vo Spec/Crc64.vo Gen/Crc64.vo
 Model/Digest.vio: Model/Digest.v Base/Bytes.vio Base/Table.vio Base/Endian.vio Spec/Crc64.vio Gen/Crc64.vio
 Model/Digest.vos Model/Digest.vok Model/Digest.required_vos: Model/Digest.v Base/Bytes.vos Base/Table.vos Base/Endian.vos Spec/Crc64.vos Gen/Crc64.vos
@@ -76,6 +79,9 @@ Proofs/CmdFilterProofs.vos Proofs/CmdFilterProofs.vok Proofs/CmdFilterProofs.req
 Proofs/Crc64Proofs.vo Proofs/Crc64Proofs.glob Proofs/Crc64Proofs.v.beautified Proofs/Crc64Proofs.required_vo: Proofs/Crc64Proofs.v Base/Bytes.vo Base/Table.vo Base/Endian.vo Spec/Crc64.vo
 Proofs/Crc64Proofs.vio: Proofs/Crc64Proofs.v Base/Bytes.vio Base/Table.vio Base/Endian.vio Spec/Crc64.vio
 Proofs/Crc64Proofs.vos Proofs/Crc64Proofs.vok Proofs/Crc64Proofs.required_vos: Proofs/Crc64Proofs.v Base/Bytes.vos Base/Table.vos Base/Endian.vos Spec/Crc64.vos
+Proofs/CupcakeProofs.vo Proofs/CupcakeProofs.glob Proofs/CupcakeProofs.v.beautified Proofs/CupcakeProofs.required_vo: Proofs/CupcakeProofs.v Base/Bytes.vo Base/Endian.vo Base/Dec.vo Model/RespCodec.vo Model/Digest.vo Model/Lzf.vo Model/Rdb.vo Gen/Crc64.vo Spec/RdbFormat.vo Spec/Compact.vo Model/Cupcake.vo Proofs/RespProofs.vo Proofs/DigestProofs.vo Proofs/RdbProofs.vo
+Proofs/CupcakeProofs.vio: Proofs/CupcakeProofs.v Base/Bytes.vio Base/Endian.vio Base/Dec.vio Model/RespCodec.vio Model/Digest.vio Model/Lzf.vio Model/Rdb.vio Gen/Crc64.vio Spec/RdbFormat.vio Spec/Compact.vio Model/Cupcake.vio Proofs/RespProofs.vio Proofs/DigestProofs.vio Proofs/RdbProofs.vio
+Proofs/CupcakeProofs.vos Proofs/CupcakeProofs.vok Proofs/CupcakeProofs.required_vos: Proofs/CupcakeProofs.v Base/Bytes.vos Base/Endian.vos Base/Dec.vos Model/RespCodec.vos Model/Digest.vos Model/Lzf.vos Model/Rdb.vos Gen/Crc64.vos Spec/RdbFormat.vos Spec/Compact.vos Model/Cupcake.vos Proofs/RespProofs.vos Proofs/DigestProofs.vos Proofs/RdbProofs.vos
 Proofs/DigestProofs.vo Proofs/DigestProofs.glob Proofs/DigestProofs.v.beautified Proofs/DigestProofs.required_vo: Proofs/DigestProofs.v Base/Bytes.vo Base/Table.vo Base/Endian.vo Spec/Crc64.vo Gen/Crc64.vo Model/Digest.vo Proofs/Crc64Proofs.vo
 Proofs/DigestProofs.vio: Proofs/DigestProofs.v Base/Bytes.vio Base/Table.vio Base/Endian.vio Spec/Crc64.vio Gen/Crc64.vio Model/Digest.vio Proofs/Crc64Proofs.vio
 Proofs/DigestProofs.vos Proofs/DigestProofs.vok Proofs/DigestProofs.required_vos: Proofs/DigestProofs.v Base/Bytes.vos Base/Table.vos Base/Endian.vos Spec/Crc64.vos Gen/Crc64.vos Model/Digest.vos Proofs/Crc64Proofs.vos
@@ -112,6 +118,9 @@ Props/C10.vos Props/C10.vok Props/C10.required_vos: Props/C10.v Base/Bytes.vos B
 Props/C11.vo Props/C11.glob Props/C11.v.beautified Props/C11.required_vo: Props/C11.v Base/Bytes.vo Base/Endian.vo Spec/Crc64.vo Gen/Crc64.vo Model/Digest.vo Proofs/Crc64Proofs.vo Proofs/DigestProofs.vo
 Props/C11.vio: Props/C11.v Base/Bytes.vio Base/Endian.vio Spec/Crc64.vio Gen/Crc64.vio Model/Digest.vio Proofs/Crc64Proofs.vio Proofs/DigestProofs.vio
 Props/C11.vos Props/C11.vok Props/C11.required_vos: Props/C11.v Base/Bytes.vos Base/Endian.vos Spec/Crc64.vos Gen/Crc64.vos Model/Digest.vos Proofs/Crc64Proofs.vos Proofs/DigestProofs.vos
+Props/C12.vo Props/C12.glob Props/C12.v.beautified Props/C12.required_vo: Props/C12.v Base/Bytes.vo Base/Endian.vo Base/Dec.vo Model/Rdb.vo Spec/RdbFormat.vo Spec/Compact.vo Model/Cupcake.vo Proofs/RdbProofs.vo Proofs/CupcakeProofs.vo
+Props/C12.vio: Props/C12.v Base/Bytes.vio Base/Endian.vio Base/Dec.vio Model/Rdb.vio Spec/RdbFormat.vio Spec/Compact.vio Model/Cupcake.vio Proofs/RdbProofs.vio Proofs/CupcakeProofs.vio
+Props/C12.vos Props/C12.vok Props/C12.required_vos: Props/C12.v Base/Bytes.vos Base/Endian.vos Base/Dec.vos Model/Rdb.vos Spec/RdbFormat.vos Spec/Compact.vos Model/Cupcake.vos Proofs/RdbProofs.vos Proofs/CupcakeProofs.vos
 Props/C13.vo Props/C13.glob Props/C13.v.beautified Props/C13.required_vo: Props/C13.v Base/Bytes.vo Model/Filter.vo Model/CmdFilter.vo Gen/CmdTable.vo Proofs/CmdFilterProofs.vo
 Props/C13.vio: Props/C13.v Base/Bytes.vio Model/Filter.vio Model/CmdFilter.vio Gen/CmdTable.vio Proofs/CmdFilterProofs.vio
 Props/C13.vos Props/C13.vok Props/C13.required_vos: Props/C13.v Base/Bytes.vos Model/Filter.vos Model/CmdFilter.vos Gen/CmdTable.vos Proofs/CmdFilterProofs.vos
@@ -127,6 +136,9 @@ Props/C18.vos Props/C18.vok Props/C18.required_vos: Props/C18.v Base/Bytes.vos M
 Props/C20.vo Props/C20.glob Props/C20.v.beautified Props/C20.required_vo: Props/C20.v Base/Bytes.vo Model/Supervisor.vo Proofs/SupervisorProofs.vo Gen/Supervisor.vo
 Props/C20.vio: Props/C20.v Base/Bytes.vio Model/Supervisor.vio Proofs/SupervisorProofs.vio Gen/Supervisor.vio
 Props/C20.vos Props/C20.vok Props/C20.required_vos: Props/C20.v Base/Bytes.vos Model/Supervisor.vos Proofs/SupervisorProofs.vos Gen/Supervisor.vos
+Spec/Compact.vo Spec/Compact.glob Spec/Compact.v.beautified Spec/Compact.required_vo: Spec/Compact.v Base/Bytes.vo Base/Endian.vo Base/Dec.vo Spec/RdbFormat.vo
+Spec/Compact.vio: Spec/Compact.v Base/Bytes.vio Base/Endian.vio Base/Dec.vio Spec/RdbFormat.vio
+Spec/Compact.vos Spec/Compact.vok Spec/Compact.required_vos: Spec/Compact.v Base/Bytes.vos Base/Endian.vos Base/Dec.vos Spec/RdbFormat.vos
 Spec/Crc16.vo Spec/Crc16.glob Spec/Crc16.v.beautified Spec/Crc16.required_vo: Spec/Crc16.v Base/Bytes.vo Base/Table.vo
 Spec/Crc16.vio: Spec/Crc16.v Base/Bytes.vio Base/Table.vio
 Spec/Crc16.vos Spec/Crc16.vok Spec/Crc16.required_vos: Spec/Crc16.v Base/Bytes.vos Base/Table.vos
